@@ -6,6 +6,7 @@
 #![allow(clippy::too_many_arguments, clippy::type_complexity)]
 
 mod exec;
+mod fault;
 mod lin;
 mod runner;
 mod sched;
@@ -16,6 +17,7 @@ mod wl_access;
 mod wl_core;
 mod wl_kinds;
 mod wl_life;
+mod wl_panic;
 mod wl_prog;
 mod wl_race;
 mod wl_seq;
@@ -45,6 +47,7 @@ fn main() {
         "wrap" => cmd_wrap(&args),
         "access" => cmd_access(&args),
         "serde" => cmd_serde(&args),
+        "panic" => cmd_panic(&args),
         "kinds" => cmd_kinds(&args),
         "selftest" => cmd_selftest(&args),
         other => {
@@ -504,6 +507,109 @@ fn cmd_serde(a: &Args) -> i32 {
     runner::count("serde.law_checks", checks);
     let d = runner::with(|r| r.distinct.len() as u64);
     runner::count("distinct_nontrivial", d);
+    0
+}
+
+/// Panics in user code (C18): for each seeded execution a counting run, then one run per
+/// (kind of user code, n-th invocation) up to `cap` per kind. Keys: mode=token|seq, execs, cap, seed, shard.
+fn cmd_panic(a: &Args) -> i32 {
+    let p = wl_core::profile("c01");
+    tp::set_alloc_mode(parse_alloc(&a.str("alloc", "quarantine")));
+    let mode = match a.str("mode", "token").as_str() {
+        "token" => Mode::Token,
+        "seq" => Mode::Off,
+        _ => panic!("mode=token|seq"),
+    };
+    sched::set_mode(mode);
+    let execs = a.u64("execs", 20);
+    let cap = a.u64("cap", 8);
+    let seed = a.u64("seed", 1);
+    let shard = a.u64("shard", 0);
+    let strat = a.str("strat", "both");
+    runner::start_watchdog(a.u64("stall_s", 20));
+    let mut distinct = std::collections::HashSet::new();
+    let mut plans = 0u64;
+    let mut fired = 0u64;
+    for n in 0..execs {
+        let exec_no = shard * 10_000_000 + n + 1;
+        let wseed = util::mix(seed.wrapping_mul(0x7000_0011), exec_no);
+        let sseed = util::mix(wseed, 0x5EED);
+        let cfg = wl_panic::PanicCfg { exec_no, wseed, sseed, mode, record: false };
+        let use_fill = match strat.as_str() {
+            "default" => false,
+            "fill" => true,
+            _ => exec_no % 2 == 0,
+        };
+        let run = |plan: Option<(u8, u64)>| {
+            if use_fill {
+                wl_panic::run_exec::<FillFastSlots>(&p, &cfg, plan)
+            } else {
+                wl_panic::run_exec::<DefaultStrategy>(&p, &cfg, plan)
+            }
+        };
+        let base = run(None);
+        runner::with(|r| {
+            r.execs += 1;
+            r.ops += base.out.ops as u64;
+        });
+        for kind in 1..=4u8 {
+            let cnt = base.counts[kind as usize];
+            runner::count(&format!("panic.invocations.{}", fault::KIND_NAMES[kind as usize]), cnt);
+            // spread the enumerated positions over the whole range when there are more than `cap`
+            let positions: Vec<u64> = if cnt <= cap { (1..=cnt).collect() } else { (0..cap).map(|i| 1 + i * cnt / cap).collect() };
+            for nth in positions {
+                let o = run(Some((kind, nth)));
+                plans += 1;
+                runner::with(|r| {
+                    r.execs += 1;
+                    r.ops += o.out.ops as u64;
+                });
+                runner::count(&format!("panic.plans.{}", fault::KIND_NAMES[kind as usize]), 1);
+                if o.injected {
+                    fired += 1;
+                    runner::count(&format!("panic.fired.{}", fault::KIND_NAMES[kind as usize]), 1);
+                    if let Some(i) = fault::injection() {
+                        if i.in_payall {
+                            runner::count("panic.fired.inside_debt_walk", 1);
+                        }
+                    }
+                    distinct.insert(util::mix(o.out.trace_hash, (kind as u64) << 32 | nth));
+                }
+                if o.caught == 0 && o.injected {
+                    runner::count("panic.injected_but_not_caught_by_an_operation", 1);
+                }
+            }
+        }
+        if mode == Mode::Token && n % 8 == 0 {
+            // directed scenario: destructor of a helper's rejected replacement inside the debt walk
+            let before = tp::DESTROY_IN_PAYALL.load(std::sync::atomic::Ordering::Relaxed);
+            let base = wl_panic::directed_destructor_in_debt_walk(None, exec_no);
+            let inside = tp::DESTROY_IN_PAYALL.load(std::sync::atomic::Ordering::Relaxed) - before;
+            runner::count("panic.directed.destructions_inside_debt_walk", inside);
+            for nth in 1..=base.counts[fault::K_DESTRUCTOR as usize] {
+                let o = wl_panic::directed_destructor_in_debt_walk(Some((fault::K_DESTRUCTOR, nth)), exec_no);
+                plans += 1;
+                runner::count("panic.plans.directed", 1);
+                if o.injected {
+                    fired += 1;
+                    if let Some(i) = fault::injection() {
+                        if i.in_payall {
+                            runner::count("panic.fired.inside_debt_walk", 1);
+                        }
+                    }
+                }
+                runner::with(|r| r.execs += 1);
+            }
+        }
+        plans += wl_panic::access_scenarios(exec_no);
+        runner::count("panic.plans.access_projection_and_constant", 5);
+        if runner::with(|r| r.violations.len()) >= 200 {
+            break;
+        }
+    }
+    runner::count("panic.plans_total", plans);
+    runner::count("panic.fired_total", fired);
+    runner::count("distinct_nontrivial", distinct.len() as u64);
     0
 }
 
